@@ -225,18 +225,20 @@ def scan_assumptions(paths):
 def lib_paths(gen_text):
     out = []
     for m in re.finditer(r'#\[path\s*=\s*"([^"]+)"\]', gen_text):
-        out.append(os.path.normpath(os.path.join(GEN, m.group(1))))
+        out.append(os.path.normpath(os.path.join(GEN, 'x', m.group(1))) if not os.path.isabs(m.group(1)) else m.group(1))
     return out
 
 
 def run_unit(unit_path, prop, tier, seed):
     name = os.path.splitext(os.path.basename(unit_path))[0]
-    out_path = os.path.join(GEN, name + '.rs')
+    gen_dir = os.path.join(GEN, prop)
+    os.makedirs(gen_dir, exist_ok=True)
+    out_path = os.path.join(gen_dir, name + '.rs')
     t0 = time.time()
     u = {'unit': name, 'failures': [], 'undecided': [], 'functions': [], 'obligations': 0, 'discharged': 0,
          'solver_ms': 0, 'labels': [], 'assumptions': [], 'extraction': {}, 'vacuity': {}}
     try:
-        rep = extract.generate(unit_path, out_path)
+        rep = extract.generate(unit_path, out_path, spec_root=os.path.join(ROOT, 'spec'))
     except extract.ExtractError as e:
         u['undecided'].append({'reason': 'unit-file-error', 'detail': str(e)})
         return u
@@ -251,7 +253,7 @@ def run_unit(unit_path, prop, tier, seed):
     extra = []
     if tier == 'thorough':
         extra = ['--rlimit', '40', '--smt-option', 'smt.random_seed=%d' % (seed % 1000)]
-    r = sh(verus_cmd(out_path, extra), cwd=GEN)
+    r = sh(verus_cmd(out_path, extra), cwd=gen_dir)
     pv = parse_verus(r.stdout, r.stderr)
     # labelled clauses of this property in the generated text
     for i, ln in enumerate(gen_lines):
@@ -314,9 +316,9 @@ def run_unit(unit_path, prop, tier, seed):
     # vacuity probes
     try:
         ptext, plines, pnames = make_probe(rep)
-        ppath = os.path.join(GEN, name + '_probe.rs')
+        ppath = os.path.join(gen_dir, name + '_probe.rs')
         open(ppath, 'w', encoding='utf-8').write(ptext)
-        pr = sh(verus_cmd(ppath, multiple=50), cwd=GEN)
+        pr = sh(verus_cmd(ppath, multiple=50), cwd=gen_dir)
         ppv = parse_verus(pr.stdout, pr.stderr)
         hit = set()
         for d in ppv['diags']:
